@@ -1,0 +1,32 @@
+//go:build verif
+
+// Verification contracts (comments only; compiled only with -tags verif).
+// Checked by /verif/bin/govc; see /verif/DESIGN.md.
+
+package standard
+
+//@ type Service
+//@   guarded_by subscriptionInfosMutex: subscriptionInfos
+//@   guarded_by pendingAttestationsMutex: pendingAttestations
+//@
+//@ // wall-clock start of a slot in nanoseconds, as answered by the chain time service
+//@ spec func startOfSlotNs(slot phase0.Slot) int
+//@
+//@ func (*Service).AttestAndScheduleAggregate
+//@   requires s != nil && duty != nil && s.attester != nil && s.chainTimeService != nil && s.scheduler != nil && s.validatingAccountsProvider != nil
+//@   requires s.pendingAttestations != nil && unheld(s.pendingAttestationsMutex) && unheld(s.subscriptionInfosMutex)
+//@   assumes call Attest#1 (atts, err): err == nil ==> forall k int :: 0 <= k && k < len(atts) ==> atts[k] != nil && atts[k].Data != nil
+//@   assumes call StartOfSlot (t): ns(t) == startOfSlotNs(arg0)
+//@   // the subscription information stored for an epoch holds non-nil entries with a duty
+//@   requires forall e phase0.Epoch, sl phase0.Slot, ci phase0.CommitteeIndex :: in(s.subscriptionInfos, e) && in(s.subscriptionInfos[e], sl) && in(s.subscriptionInfos[e][sl], ci) ==> s.subscriptionInfos[e][sl][ci] != nil && s.subscriptionInfos[e][sl][ci].Duty != nil
+//@   // C14: an aggregation job for exactly the attested slot and committee, at the slot start plus the aggregation delay,
+//@   // only for a committee in which the stored information says one of our validators is the aggregator
+//@   at call ScheduleJob#1: assert arg2 == sprintf("Beacon block attestation aggregation for slot %d committee %d", attestation.Data.Slot, attestation.Data.Index)
+//@   at call ScheduleJob#1: assert ns(arg3) == startOfSlotNs(attestation.Data.Slot) + s.attestationAggregationDelay
+//@   at call ScheduleJob#1: assert info == subscriptionInfoMap[attestation.Data.Slot][attestation.Data.Index] && info.IsAggregator
+//@   at call ScheduleJob#1: assert aggregatorDuty.Slot == info.Duty.Slot && aggregatorDuty.ValidatorIndex == info.Duty.ValidatorIndex && aggregatorDuty.SlotSignature == info.Signature
+//@   // C14: every attestation of the slot is considered: no path leaves from inside the loop
+//@   ensures !inloop(1)
+//@   // C20: the pending mark of the slot is cleared on every exit
+//@   ensures !in(s.pendingAttestations, duty.slot)
+//@   ensures unheld(s.pendingAttestationsMutex) && unheld(s.subscriptionInfosMutex)
